@@ -247,6 +247,7 @@ type plan struct {
 	CfgExc     []pat
 	CfgVia     string // home | dash-c | clone-config
 	Store      string // empty | preseed-subset | reference-full | reference-subset
+	RefHow     string `json:",omitempty"` // template 8 (refstore.go): how the clone came to borrow from a reference store that git-lfs has not looked at yet
 	Ops        []opPlan
 	Fault      *faultPlan `json:",omitempty"` // transient server faults (nil = the server behaves)
 }
@@ -519,7 +520,11 @@ func (p plan) class() string {
 	for _, o := range p.Ops {
 		ops = append(ops, optClass(o))
 	}
-	return fmt.Sprintf("clone-%s-%s/%s/%s/cfg-%s/%s/%s", mode, p.RefKind, p.Driver, p.Store, filterClass(p.CfgInc, p.CfgExc), strings.Join(ops, ","), p.Fault.class())
+	store := p.Store
+	if p.RefHow != "" {
+		store += "-unlinked:" + p.RefHow
+	}
+	return fmt.Sprintf("clone-%s-%s/%s/%s/cfg-%s/%s/%s", mode, p.RefKind, p.Driver, store, filterClass(p.CfgInc, p.CfgExc), strings.Join(ops, ","), p.Fault.class())
 }
 
 // ---------- main ----------
@@ -527,12 +532,12 @@ func (p plan) class() string {
 func main() {
 	run := evid.New("C04", "exploration")
 	defer sbx.RemoveBase()
-	run.Rule = "per source repository (histgen: branches, merges, orphan branches, tags, add/modify/delete/rename/duplicate, files moving in and out of LFS tracking, nested .gitattributes, exec bits, empty files, symlinks; pushed through the pre-push hook to a bare repository + fake LFS server) 8 consumer scenario templates: {smudging clone, skip-smudge clone + fetch + lfs checkout, skip clone + edits + pull, configured include/exclude overridden by -I/-X, alternates reference store, pre-seeded local objects, clone --no-checkout + seed + checkout + ref switch, free mix} x random {branch|tag, lfs.url via -c/--config/HOME, filter-process|one-shot smudge, lfs.fetchinclude/exclude via HOME/-c/--config, 11 pattern forms, -I/-X given/empty/absent, fetch refs, lfs checkout path arguments, GIT_LFS_SKIP_SMUDGE on git checkout, 9 working-tree mutation kinds before pull / lfs checkout} x transient server faults in one scenario out of three: for one or two victim objects that the step reached first (clone, first checkout, git checkout, lfs fetch, lfs pull) is about to download, the storage GET is answered {503 k times with k <= lfs.transfer.maxretries, 503 maxretries+1 times, 503 for ever, connection reset once or twice, body cut short once or twice} or the batch API reports the object missing once; lfs.transfer.maxretries in {1,2,8} delivered via HOME/-c/--config; later steps (incl. lfs checkout) run with what is left of the script and with the objects a failed step left behind. A command that exits 0 is judged exactly as without faults; a command that exits non-zero while faults were injected is counted, not judged (except never-clobber / fetch-leaves-worktree-alone, which hold for failures too). Rare command shapes run as the LAST operation of a sample of the scenarios (every second scenario, rotating by seed; every scenario of the source repositories with recent commit dates = one in four, commit ages from {0.3,1.5,2.5,5,9,12,30} days plus three 7-9 h old commits on main that rewrite the same two paths; every source also has a commit reachable from a tag only): fetch --all [origin [refs|sha]] (also --json / --dry-run), fetch --recent and lfs.fetchrecentalways with lfs.fetchrecentrefsdays / lfs.fetchrecentcommitsdays in {unset,0,1,3,7} and lfs.fetchrecentremoterefs in {unset,true,false} (+ -I/-X, refs, --json), fetch origin with three arguments incl. a raw commit id, fetch --refetch (in two of three cases with a server that fails for good for 1-2 of the objects), fetch --dry-run, fetch --json, and `git lfs checkout --to <file inside|outside the work tree> --base|--ours|--theirs <path>` in every stage order during a real modify/modify merge conflict on an LFS path of the history or a new file, followed by the usage errors (--to without a stage, two stages). Class = (clone mode, ref kind, filter driver, store, configured filter shape, sequence of operations with their option shapes incl. the tail shape and its windows, fault kind + maxretries + step at which it was armed)."
+	run.Rule = "per source repository (histgen: branches, merges, orphan branches, tags, add/modify/delete/rename/duplicate, files moving in and out of LFS tracking, nested .gitattributes, exec bits, empty files, symlinks; pushed through the pre-push hook to a bare repository + fake LFS server) 8 consumer scenario templates: {smudging clone, skip-smudge clone + fetch + lfs checkout, skip clone + edits + pull, configured include/exclude overridden by -I/-X, alternates reference store, pre-seeded local objects, clone --no-checkout + seed + checkout + ref switch, free mix} x random {branch|tag, lfs.url via -c/--config/HOME, filter-process|one-shot smudge, lfs.fetchinclude/exclude via HOME/-c/--config, 11 pattern forms, -I/-X given/empty/absent, fetch refs, lfs checkout path arguments, GIT_LFS_SKIP_SMUDGE on git checkout, 9 working-tree mutation kinds before pull / lfs checkout} x transient server faults in one scenario out of three: for one or two victim objects that the step reached first (clone, first checkout, git checkout, lfs fetch, lfs pull) is about to download, the storage GET is answered {503 k times with k <= lfs.transfer.maxretries, 503 maxretries+1 times, 503 for ever, connection reset once or twice, body cut short once or twice} or the batch API reports the object missing once; lfs.transfer.maxretries in {1,2,8} delivered via HOME/-c/--config; later steps (incl. lfs checkout) run with what is left of the script and with the objects a failed step left behind. A command that exits 0 is judged exactly as without faults; a command that exits non-zero while faults were injected is counted, not judged (except never-clobber / fetch-leaves-worktree-alone, which hold for failures too). Rare command shapes run as the LAST operation of a sample of the scenarios (every second scenario, rotating by seed; every scenario of the source repositories with recent commit dates = one in four, commit ages from {0.3,1.5,2.5,5,9,12,30} days plus three 7-9 h old commits on main that rewrite the same two paths; every source also has a commit reachable from a tag only): fetch --all [origin [refs|sha]] (also --json / --dry-run), fetch --recent and lfs.fetchrecentalways with lfs.fetchrecentrefsdays / lfs.fetchrecentcommitsdays in {unset,0,1,3,7} and lfs.fetchrecentremoterefs in {unset,true,false} (+ -I/-X, refs, --json), fetch origin with three arguments incl. a raw commit id, fetch --refetch (in two of three cases with a server that fails for good for 1-2 of the objects), fetch --dry-run, fetch --json, and `git lfs checkout --to <file inside|outside the work tree> --base|--ours|--theirs <path>` in every stage order during a real modify/modify merge conflict on an LFS path of the history or a new file, followed by the usage errors (--to without a stage, two stages). Besides the 8 templates every source repository runs 2 (thorough: 3) scenarios of template 8 (refstore.go), 'objects only in the reference store, nothing linked yet': {clone --reference with the lfs filters unset, GIT_LFS_SKIP_SMUDGE clone --reference, alternates entry appended after the clone, reference repository receives its LFS objects after the clone, clone --no-checkout --reference + git reset --hard} x {full, partial reference store} x first operation {lfs checkout, lfs checkout <paths>, lfs pull, lfs fetch (+ lfs checkout), git checkout <other ref>}, rotating by seed, against a well-behaved server. Class = (clone mode, ref kind, filter driver, store incl. how it came to be unlinked, configured filter shape, sequence of operations with their option shapes incl. the tail shape and its windows, fault kind + maxretries + step at which it was armed)."
 	run.Assumptions = []string{
 		"selection by include/exclude follows gitignore(5) as documented in git-lfs-fetch(1); the driver's matcher is restricted to the generated pattern forms and cross-checked against git check-ignore",
 		"-I / -X each override only their own configuration key (documented: 'override the respective configuration settings')",
 		"LFS-tracked = filter=lfs according to git check-attr on the commit's own .gitattributes; canonical pointers at untracked paths are not judged (only never-clobber applies to them)",
-		"git lfs checkout does not download: it must materialise selected files whose object is in the local store, may use a reference store, and leaves the pointer otherwise",
+		"git lfs checkout does not download: it must materialise selected files whose object is hash-valid in the local store or in a reference store the clone borrows from (objects/info/alternates -> <alternate>/../lfs/objects; the pinned tree links or copies such an object into the local store first: 'intact local store' is read as including the stores Git itself borrows from), and leaves the pointer when the object is in neither",
 		"a deleted working-tree file is treated like a pointer file (docs: 'where a file is either missing in the working copy, or contains placeholder pointer content'); a read-only file still holding the recorded pointer is replaced by content",
 		"git checkout <ref> only rewrites paths whose blob differs between the two commits; untouched paths keep their state",
 		"git 2.39.5: git lfs pull / checkout scan the tree of HEAD (index == HEAD in every scenario)",
@@ -545,7 +550,9 @@ func main() {
 		"faulty scenarios: after a git clone / git checkout / git reset that exits non-zero the scenario ends (index and HEAD may disagree); after a failed lfs fetch / pull it goes on, and every later expectation is computed from the state observed right before the command (working-tree snapshot, hash-valid local objects)",
 	}
 	nrepos := run.N(12, 150)
-	nscen := run.N(8, 16)
+	nbase := run.N(8, 16)
+	nextra := run.N(2, 3) // template 8: reference store not linked yet
+	nscen := nbase + nextra
 	run.SetMinEvaluations(nrepos * nscen / 2)
 
 	cpus := runtime.NumCPU()
@@ -581,7 +588,7 @@ func main() {
 					defer w2.Done()
 					sem <- struct{}{}
 					defer func() { <-sem }()
-					runScenario(run, src, k, nscen)
+					runScenario(run, src, k, nbase, nextra)
 				}(k)
 			}
 			w2.Wait()
